@@ -48,6 +48,9 @@ type behaviour struct {
 	// Free: only the moves of the chain (and restarts) are taken from Steps; between them the node is scheduled at random,
 	// whatever order of calls the code under test makes (no gate of the specification is expected)
 	Free bool `json:"free"`
+	// Shadow: a second syncer of the node shares the reorg detector (as bridgesync and l1infotreesync share the L1 detector):
+	// it tracks the same blocks under its own subscriber id and acknowledges its reorg notifications at once
+	Shadow bool `json:"shadow"`
 }
 
 var (
@@ -147,7 +150,7 @@ func (r *run) play(id int, dir string, seed uint64) error {
 		return fmt.Errorf("unknown processor %q", b.Proc)
 	}
 	r.cfg = nodeCfg{chunk: b.Chunk, tag: b.Tag, buf: b.Buf, rdPath: filepath.Join(dir, fmt.Sprintf("rd-%d.sqlite", id)),
-		st: st, compat: &compatData{}}
+		st: st, compat: &compatData{}, shadow: b.Shadow}
 	defer func() {
 		for _, p := range []string{r.cfg.rdPath, filepath.Join(dir, fmt.Sprintf("l1-%d.sqlite", id)), filepath.Join(dir, fmt.Sprintf("bridge-%d.sqlite", id))} {
 			for _, suf := range []string{"", "-wal", "-shm"} {
